@@ -5,6 +5,7 @@ import (
 	"fmt"
 	"io"
 	"math"
+	"sort"
 	"time"
 
 	"github.com/200sc/bebop/iohelp"
@@ -241,6 +242,10 @@ func drawPrim(r *prng.Rand, g *val.Gen, p string, taint bool) val.Value {
 	case "bool":
 		return val.Value{U: 1}
 	case "string":
+		if r.Chance(1, 5) {
+			// threshold lengths: helpers may treat long strings differently
+			return val.Value{B: taintBytes(r, []int{255, 256, 1023, 1024, 1025, 1500, 4096, 4097, 5000}[r.Intn(9)])}
+		}
 		return val.Value{B: taintBytes(r, r.Range(0, 6))}
 	case "guid":
 		return val.Value{B: taintBytes(r, 16)}
@@ -322,7 +327,33 @@ func runC20(c *Ctx) *Replay {
 	for i := range base.Values {
 		total += primWidth(base.Types[i], base.Values[i])
 	}
-	for k := 0; k < total; k++ {
+	var ks []int
+	if total <= 300 {
+		for k := 0; k < total; k++ {
+			ks = append(ks, k)
+		}
+	} else {
+		// long streams: every offset around each primitive's start and length prefix, plus samples
+		off := 0
+		set := map[int]bool{}
+		for i := range base.Values {
+			w := primWidth(base.Types[i], base.Values[i])
+			for _, k := range []int{off, off + 1, off + 3, off + 4, off + 5, off + w/2, off + w - 1} {
+				if k >= 0 && k < total {
+					set[k] = true
+				}
+			}
+			off += w
+		}
+		for i := 0; i < 48; i++ {
+			set[c.R.Intn(total)] = true
+		}
+		for k := range set {
+			ks = append(ks, k)
+		}
+		sort.Ints(ks)
+	}
+	for _, k := range ks {
 		for variant := 0; variant < 3; variant++ {
 			sc := base
 			sc.Reader = readerKinds[c.R.Intn(len(readerKinds))]
